@@ -179,10 +179,10 @@ theorem expect_maskBits (q : Obj) (hq : WFObj q) : (expect q).maskBits = q.maskB
         rw [any_false_eq_map q.maskBits (indices q.shape) (by rw [hml, length_indices]) hmb]
         simp [Obj.maskBits, hm, hshape]
 
-/-- unmasked values are kept bit for bit, masked ones are the class default; a single
-    (Python scalar) value is kept -/
+/-- unmasked values are kept bit for bit, masked ones are the class default — also for a
+    single (Python scalar) value -/
 theorem expect_values (q : Obj) :
-    (∀ x, q.vals = .single x → (expect q).vals = .single x) ∧
+    (∀ x, q.vals = .single x → (expect q).vals = .single (if q.mask.all then q.default.getD 0 0 else x)) ∧
     (∀ vs items, q.vals = .array vs items →
       (expect q).vals = .array (q.shape ++ (q.numer ++ q.denom)) (fill q.default q.maskBits items)) := by
   constructor
@@ -270,12 +270,29 @@ theorem roundtrip_legacy (P : Params) (q : QObj) (hq : WFQ q) (hE : Exact P q) (
       rw [List.any_map]; rfl
     simp only [hmap, hany]
 
+/-! #### per-item encoding is a pure relabelling -/
+
+/-- `_encode_floats` encodes each item component separately (`reshape(-1, isz).swapaxes(0,1)`)
+    and `_decode_floats` reassembles them (`moveaxis(values, 0, -1)`): entry `i` of component
+    array `k` is component `k` of element `i`, and the reassembly returns the array — for any
+    number of elements and any item size. -/
+theorem items_transpose_roundtrip {α : Type} [Inhabited α] (isz : Nat) (rows : List (List α))
+    (h : ∀ r ∈ rows, r.length = isz) :
+    itemRows rows.length (itemColumns isz rows) = rows ∧
+    ∀ k i, k < isz → i < rows.length →
+      ((itemColumns isz rows).getD k []).getD i default = (rows.getD i []).getD k default :=
+  ⟨itemRows_itemColumns isz rows h, fun k i hk hi => itemColumns_get isz rows k i hk hi⟩
+
+example : itemColumns 3 [[1, 2, 3], [4, 5, 6]] = [[1, 4], [2, 5], [3, 6]] := by decide
+
 /-! #### pickling does not change the object -/
 
 def Obj.noCache (o : Obj) : Obj := { o with cache := [] }
 
 /-- `__getstate__` leaves `q` as it was: the only attribute of `q` or of its derivatives that
-    it writes is `_cache_` (entries 'corners', 'slicer', 'antimask') -/
+    it writes is `_cache_` (entries 'corners', 'slicer', 'antimask').  That this effect frame is
+    the one of the SOURCE is `effect_frame` in PMV/Lemmas/PickleEffects.lean, over a table
+    regenerated from pickler.py / qube.py on every run. -/
 theorem getstate_pure (P : Params) (q : QObj) :
     (getstate P q).2.self.noCache = q.self.noCache ∧
     (getstate P q).2.derivs.map (fun kd => (kd.1, kd.2.noCache)) = q.derivs.map (fun kd => (kd.1, kd.2.noCache)) := by
